@@ -181,3 +181,33 @@ Definition spec_avg (xs : list v) : option (Z * Z) :=
   match nonnull xs with [] => None | l => Some (zsum l, Z.of_nat (length l)) end.
 Definition spec_max (xs : list v) : v := match nonnull xs with [] => None | a :: l => Some (fold_left Z.max l a) end.
 Definition spec_min (xs : list v) : v := match nonnull xs with [] => None | a :: l => Some (fold_left Z.min l a) end.
+
+(* ------------------------------------------------------------------ RANGE frames (window_framer.go rangeFramerBase) *)
+(* findInclusionBoundary(pos, searchStart, partitionEnd, inclusion, expr, stopCond): the first index i >= searchStart
+   of the partition whose order key compares >= (stopCond greaterThanOrEqual) resp. > (greaterThan) the inclusion
+   value computed at the current row; partitionEnd when there is none.  Indexes are relative to the partition. *)
+Fixpoint first_sat (p : Z -> bool) (l : list Z) : nat :=
+  match l with [] => O | k :: t => if p k then O else S (first_sat p t) end.
+Definition find_boundary (p : Z -> bool) (keys : list Z) (search_start : nat) : nat :=
+  (search_start + first_sat p (skipn search_start keys))%nat.
+
+(* rangeFramerBase.Next for the rows idx, idx+1, ... of one partition with integer order keys [keys] (as buffered);
+   [fs], [fe] are frameStart / frameEnd carried from the previous row (both start at the partition start).
+   startInclusion = key - n (n PRECEDING), key + n (n FOLLOWING), key (CURRENT ROW); the sort direction of the order
+   key is never consulted (for a DESC key the same arithmetic is used: the defect recorded in findings/C08.json). *)
+Fixpoint range_rows (sb eb : bound) (keys : list Z) (fs fe idx todo : nat) : list (nat * nat) :=
+  match todo with
+  | O => []
+  | S t =>
+    let k := nth idx keys 0 in
+    let ns := if is_unbp sb then O else find_boundary (fun x => x >=? k + off sb) keys fs in
+    let ne0 := Nat.max fe ns in                                   (* if newStart > newEnd { newEnd = newStart } *)
+    let ne := if is_unbf eb then length keys else find_boundary (fun x => x >? k + off eb) keys ne0 in
+    (ns, ne) :: range_rows sb eb keys ns ne (S idx) t
+  end.
+Definition range_frames (sb eb : bound) (keys : list Z) : list (nat * nat) :=
+  range_rows sb eb keys O O O (length keys).
+
+(* window aggregates of one partition [ps, pe) over RANGE frames; [pkeys] are the partition's order keys *)
+Definition range_part (f : wfn) (buf : list v) (pkeys : list Z) (ps pe : Z) (sb eb : bound) : list wval :=
+  map (fun se => win_agg f buf ps pe (ps + Z.of_nat (fst se)) (ps + Z.of_nat (snd se))) (range_frames sb eb pkeys).
